@@ -216,7 +216,10 @@ TReserve ==
   /\ LET r == ReserveFinal(s.uhl > 0, s.cfg.budget, s.fc, s.cfg.nfinal)
      IN Step([s EXCEPT !.budgetEff = Ev.budgeteff, !.nfinalEff = Ev.nfinaleff,
                        !.ntry = Ev.ntry, !.stalliters = Ev.stalliters,
-                       !.k = Ev.k, !.kstate = Ev.k, !.ks = Ev.ks, !.sc = Ev.sc,
+                       !.k = Ev.k, !.kstate = Ev.k, !.sc = Ev.sc,
+                       \* search mesh exponent the first loop iteration will use (l.1196-1202)
+                       !.ks = IF s.cfg.locked
+                              THEN SearchSizeLocked(Ev.k, s.cfg.gmult, s.cfg.gnum) ELSE Ev.ks,
                        !.looping = TRUE, !.phase = "loop"],
              Chk(s.budgetApplies => (Ev.budgeteff = r.budgetEff /\ Ev.nfinaleff = r.nfinalEff),
                  "C03.final_reserve")
@@ -226,13 +229,11 @@ TReserve ==
 (* ---- search step ------------------------------------------------------ *)
 TSearchBegin ==
   /\ IsEv("SearchBegin")
-  /\ Step([s EXCEPT !.step = [NoStep EXCEPT !.kind = "search"], !.searched = TRUE,
-                    !.ks = Ev.ks],
+  /\ Step([s EXCEPT !.step = [NoStep EXCEPT !.kind = "search"], !.searched = TRUE],
           Chk(DoSearch(s.sc, s.ntry, s.nlog, s.D), "C03.controller_follows_spec")
      \cup Chk(Ev.sc = s.sc /\ Ev.ss = s.ss, "C03.controller_follows_spec")
      \cup Chk(Ev.k = s.k, "C13.unchanged_outside_poll")
-     \cup Chk(s.cfg.locked => Ev.ks = SearchSizeLocked(s.k, s.cfg.gmult, s.cfg.gnum),
-              "C13.search_mesh_rule")
+     \cup Chk(Ev.ks = s.ks, "C13.search_mesh_rule")
      \cup Chk(Ev.ks <= Ev.k, "C13.search_mesh_le_poll_mesh"))
 
 TSearchEnd ==
@@ -275,6 +276,7 @@ TPollBegin ==
         \cup Chk(Ev.k = d.k, "C13.unchanged_outside_poll")
         \cup Chk(Ev.iter = s.iter, "C03.controller_follows_spec")
         \cup Chk(np1 <= s.cfg.maxiter, "C03.iter_bounded")
+        \cup Chk(Ev.ks = s.ks, "C13.search_mesh_rule")
         \cup Chk(Ev.ks <= Ev.k, "C13.search_mesh_le_poll_mesh"))
 
 (* direction generator returned (C14)                                       *)
@@ -370,6 +372,8 @@ TLoopEnd ==
          expIter == NextIter(s.iter, s.polled, Ev.finished)
      IN Step([s EXCEPT !.sc = d.sc, !.ss = d.ss, !.spree = d.spree, !.k = Ev.k,
                        !.kstate = Ev.k,
+                       \* top of the next loop iteration (l.1196-1202)
+                       !.ks = IF c.locked THEN SearchSizeLocked(Ev.k, c.gmult, c.gnum) ELSE Ev.ks,
                        !.iter = Ev.iter, !.finished = Ev.finished, !.msg = Ev.msg,
                        !.np = np1, !.searched = FALSE, !.polled = FALSE,
                        !.decided = FALSE, !.evald = FALSE, !.histNow = FALSE,
